@@ -460,7 +460,10 @@ CaseRec(lab, k, masks, variant, G, LL) ==
          [ allEntries |-> Names(G, LL.entries),
            live    |-> Names(G, LiveFiles(LL)),
            wrap    |-> [n \in Names(G, LiveFiles(LL)) |-> LL.files[IdOf(G, n)].wrap],
-           uses    |-> {[by |-> nm(u.by), file |-> nm(u.file), name |-> u.name] : u \in LL.uses},
+           \* the symbols the rendered bodies really read (an importer of an entry point imports its observers peek_e /
+           \* poke_e but does not read them: the bundler may drop that import)
+           uses    |-> {[by |-> nm(u.by), file |-> nm(u.file), name |-> u.name]
+                          : u \in {u2 \in LL.uses : \A q \in {"peek", "poke"} : u2.name # ObserverName(G, u2.file, q)}},
            features |-> Features(G, LL),
            chunks  |-> {[ bits  |-> Names(G, LL.chunks[c].bits),
                           kind  |-> LL.chunks[c].kind,
